@@ -523,7 +523,7 @@ func run(r *ev.Run) {
 // spelling is the control: if even that one is not loaded within the budget, inotify does not
 // work here and nothing is concluded; otherwise a spelling whose update is never loaded (two
 // attempts of 15 s each, against milliseconds for the control) is a violation.
-var spellings = []string{"clean", "dot-segment", "double-slash", "dot-dot", "relative", "symlink-other-dir", "clean+atomic-replace", "clean+bad-then-good"}
+var spellings = []string{"clean", "dot-segment", "double-slash", "dot-dot", "relative", "symlink-other-dir", "clean+atomic-replace", "clean+bad-then-good", "clean+large-then-small"}
 
 // RefreshDeadlock runs, for the property named id (C16), the binding runs in which lookups
 // overlap refreshes of the real watcher (good, malformed, good again): a lookup that never
@@ -580,6 +580,9 @@ func spellingRuns(r *ev.Run) {
 	for _, sp := range spellings {
 		if got[sp] == "lookup-blocked" {
 			r.Violate("C10/binding/lookup-blocked/"+sp, fmt.Sprintf("lease file (%s) with autorefresh: after the updates a lookup through the handler never returned (stopped by the 30 s operation watchdog) while the control run answered at once", sp), map[string]interface{}{"spelling": sp})
+		}
+		if got[sp] == "stale-mapping-came-back" {
+			r.Violate("C10/binding/stale-mapping-came-back/"+sp, "real watcher: after a large and then a small well-formed rewrite the small file's mapping was served and then replaced again by an older one, although the file on disk had not changed any more", map[string]interface{}{"spelling": sp})
 		}
 		if got[sp] == "bad-update-changed-table" {
 			r.Violate("C10/binding/bad-update-changed-table/"+sp, "real watcher: a malformed update (appended line) changed the served mapping", map[string]interface{}{"spelling": sp})
@@ -640,6 +643,47 @@ func spellingWorker(r *ev.Run, sp string) {
 		dl := time.Now().Add(15 * time.Second)
 		for time.Now().Before(dl) {
 			if served(goodTables[4]["good2"]) {
+				if sp == "clean+large-then-small" {
+					// two well-formed rewrites in quick succession, the first one large (parsing it
+					// takes a few hundred milliseconds), the second small: when the dust has
+					// settled the mapping served is that of the file on disk
+					var big strings.Builder
+					big.WriteString(contents[4]["good1"])
+					for i := 0; big.Len() < 24<<20; i++ {
+						fmt.Fprintf(&big, "\n02:aa:%02x:%02x:%02x:%02x 10.%d.%d.%d", i>>24&0xff, i>>16&0xff, i>>8&0xff, i&0xff, 100+i>>16&0x3f, i>>8&0xff, i&0xff)
+					}
+					t0 := time.Now()
+					os.WriteFile(real, []byte(big.String()), 0o644)
+					// wait until the watcher has had the chance to start reading the large file,
+					// then replace it by the small one
+					time.Sleep(60 * time.Millisecond)
+					os.WriteFile(real, []byte(contents[4]["good2"]), 0o644)
+					settle := time.Now().Add(25 * time.Second)
+					okSince := time.Time{}
+					for time.Now().Before(settle) {
+						if served(goodTables[4]["good2"]) {
+							if okSince.IsZero() {
+								okSince = time.Now()
+							}
+							// stays correct for 3 s after it first became correct (a slow stale
+							// reload would swap the old mapping back in)
+							if time.Since(okSince) > 3*time.Second+2*time.Since(t0)/3 {
+								fmt.Println("@@SPELLING loaded")
+								return
+							}
+						} else if !okSince.IsZero() {
+							fmt.Println("@@SPELLING stale-mapping-came-back")
+							return
+						}
+						time.Sleep(20 * time.Millisecond)
+					}
+					if okSince.IsZero() {
+						fmt.Println("@@SPELLING never-loaded")
+					} else {
+						fmt.Println("@@SPELLING loaded")
+					}
+					return
+				}
 				if sp == "clean+bad-then-good" {
 					// a malformed update (one append: no truncation window) must leave the table
 					// alone, and the NEXT well-formed update must still be loaded and lookups
